@@ -28,6 +28,11 @@ var solvers = []solverSpec{
 	{"z3-5.1-r0", func(f string, t int) []string {
 		return []string{"z3-new", "-smt2", fmt.Sprintf("-T:%d", t), "smt.relevancy=0", f}
 	}},
+	// enumerative instantiation: decides bit-vector goals with a quantified hypothesis (loop invariants over byte
+	// ranges in `mode bv`) on which E-matching in all of the above gives up
+	{"cvc5-1.0-enum", func(f string, t int) []string {
+		return []string{"cvc5", fmt.Sprintf("--tlimit=%d", t*1000), "--lang=smt2", "--enum-inst", f}
+	}},
 }
 
 type solveResult struct {
